@@ -40,10 +40,10 @@ Max2(a, b) == IF a > b THEN a ELSE b
 (* Type universe of the harness: string, int, an implementing struct,      *)
 (* a Stringer-like interface, any, map[string]any; impl2 is a second       *)
 (* implementing struct that only occurs as a dynamic value.                *)
-Conc == {"str", "int", "impl", "msa", "rec"}     \* rec: a struct with one field, only used with field mappings
+Conc == {"str", "int", "impl", "msa", "nmsa", "rec"}     \* nmsa: a DEFINED type whose underlying type is msa (map[string]any); rec: a struct, only used with field mappings
 Ifc == {"iface", "any"}
 Ty == Conc \cup Ifc
-Dyn == {"str", "int", "impl", "impl2", "msa", "rec"}
+Dyn == {"str", "int", "impl", "impl2", "msa", "nmsa", "rec"}
 Implements(d, i) == i = "any" \/ (i = "iface" /\ d \in {"impl", "impl2", "iface"})
 \* Go: is a value of static type o assignable to a parameter of type i -- must (always), may (needs a check of the dynamic value), mustnot
 Assign(o, i) == IF o = i THEN "must"
@@ -68,7 +68,12 @@ PassOp(k, h, t) == MkOp("pass", k, "", "", "", "", "", h, t, <<>>, "", "", "")
 EdgeOp(a, b, x) == MkOp("edge", "", a, b, "", "", "", "", "", <<>>, "", "", x)
 BranchOp(a, t, E, c) == MkOp("branch", "", a, "", "", "", "", "", t, E, c, "", "")
 CompileOp(m, x) == MkOp("compile", "", "", "", "", "", "", "", "", <<>>, "", m, x)
-IsAdd(o) == o.op \in {"node", "pass", "edge", "branch"}
+IsAdd(o) == o.op \in {"node", "pass", "edge", "branch", "static"}
+\* workflow front end: x of an edge says how the input was declared -- "fm"/"fm2" AddInput with a field mapping (to key k / k2),
+\* "dfm"/"dfm2" the same WithNoDirectDependency (data only), "c" AddDependency (control only); op "static" = SetStaticValue(k, path x, value e)
+IsFM(x) == x \in {"fm", "fm2", "dfm", "dfm2"}
+HasCtrl(o) == o.x \notin {"dfm", "dfm2"}
+HasData(o) == o.x # "c"
 
 (* The graph declared by the calls with index in I *)
 DeclIdx(ops, I) == {j \in I : ops[j].op \in {"node", "pass"}}
@@ -80,7 +85,7 @@ EdgeIdx(ops, I) == {j \in I : ops[j].op = "edge"}
 BrIdx(ops, I) == {j \in I : ops[j].op = "branch"}
 EdgeSet(ops, I) == {<<ops[j].a, ops[j].b>> : j \in EdgeIdx(ops, I)}
 \* edges that hand the whole value over (a field mapping builds a new value instead)
-PlainEdgeSet(ops, I) == {<<ops[j].a, ops[j].b>> : j \in {y \in EdgeIdx(ops, I) : ops[y].x # "fm"}}
+PlainEdgeSet(ops, I) == {<<ops[j].a, ops[j].b>> : j \in {y \in EdgeIdx(ops, I) : ~IsFM(ops[y].x) /\ ops[y].x # "c"}}
 DataConn(ops, I) == PlainEdgeSet(ops, I) \cup UNION {{<<ops[j].a, e>> : e \in Range(ops[j].ends)} : j \in BrIdx(ops, I)}
 \* every pair along which data can flow: edges and branch ends
 ConnSet(ops, I) == EdgeSet(ops, I) \cup UNION {{<<ops[j].a, e>> : e \in Range(ops[j].ends)} : j \in BrIdx(ops, I)}
@@ -118,7 +123,8 @@ AddBad(hdr, ops, j) ==
          ELSE ""
     [] o.op = "edge" ->
          IF (o.a \notin K \cup {START, END}) \/ (o.b \notin K \cup {START, END}) THEN "unknown-key"
-         ELSE IF <<o.a, o.b>> \in EdgeSet(ops, Pr) THEN "duplicate-edge"
+         ELSE IF \E i \in EdgeIdx(ops, Pr) : ops[i].a = o.a /\ ops[i].b = o.b /\ ((HasCtrl(ops[i]) /\ HasCtrl(o)) \/ (HasData(ops[i]) /\ HasData(o)))
+              THEN "duplicate-edge"      \* the same pair declared twice as control dependency, or twice as data source
          ELSE ""
     [] o.op = "branch" ->
          IF o.a \notin K \cup {START, END} \/ \E e \in Range(o.ends) : e \notin K \cup {START, END} THEN "unknown-key"
@@ -222,7 +228,7 @@ OutcomeWhy(hdr, ops, outs) ==
   ELSE IF C20On /\ \E j \in 1..n : outs[j] = "P" THEN "call-panicked"
   ELSE IF C20On /\ f # 0 /\ \E j \in (f + 1)..n : outs[j] # "S" THEN "error-not-sticky"
   ELSE IF C20On /\ \E j \in 1..n : ops[j].op = "compile" /\ outs[j] = "ok" /\ IllFormedAt(hdr, ops, j, Construction(ops, j, jc)) THEN "illformed-accepted"
-  ELSE IF C20On /\ jc # 0 /\ \E j \in (jc + 1)..n : IsAdd(ops[j]) /\ ~Failed(outs[j]) THEN "modified-after-compile"
+  ELSE IF C20On /\ hdr.fe # "wf" /\ jc # 0 /\ \E j \in (jc + 1)..n : IsAdd(ops[j]) /\ ~Failed(outs[j]) THEN "modified-after-compile"
   ELSE IF C07On /\ jc # 0 /\ ConcreteMismatch(hdr, ops, Accepted(ops, outs, jc)) THEN "accepted-concrete-mismatch"
   ELSE ""
 \* detail for the reason above (which reference predicate fired)
